@@ -224,7 +224,7 @@ def run(chk):
         emitters += cfg.load_functions(chk.facts(unit, funcs=rex))
     relocrules.target_pair(chk, emitters)
     relocrules.payload_live(chk, emitters)
-    relocrules.src_address(chk, rb)
+    relocrules.src_address(chk, rb, floor=1)
 
     return chk.finish(
         level="other",
